@@ -34,12 +34,22 @@ RULE = ('generated modules as C07 (blank lines, decorators, multi-line signature
         'sharing it, r/R/u/U prefixes, triple-single/double quotes, closing quotes with trailing comment or sharing the last text line, '
         'google blocks at any depth with blank lines inside, freeform groups separated by prose, preceding multi-line statements and wants) '
         'with exactly ONE injected failure: exception on the 2nd/3rd line of a multi-line statement, exception in called library code, '
-        'exception in a helper defined in the same doctest, plain raise, got/want mismatch after a one-line or multi-line statement; the '
+        'exception in a helper defined in the same doctest, plain raise, raise inside try/finally, try/except...raise and try/finally in a loop '
+        '(frame line differs from traceback line), got/want mismatch after a one-line or multi-line statement; closing quotes followed by '
+        'trailing blanks / tabs; the '
         'doctest is really run (auto and freeform style). non-trivial: every module (each has a failure); distinct = distinct source')
 ASSUMPTIONS = ['docstring literals contain no line continuations or newline escapes (LiteralLayout); see K-C08-b for what happens otherwise',
                'traceback line numbers of CPython 3.12 point at the line of the failing sub-expression']
 
 WITNESS_B = 'x = 1\ny = 2\nz = 3\ndef f():\n    """a\\nb\n    >>> 1\n    """\n'
+# literals whose VALUE has more (newline escapes) or fewer (backslash continuation) newlines than the literal has
+# source lines; (source, {callname: line on which the literal really starts})
+ESCAPE_SOURCES = [
+    (WITNESS_B, {'f': 5}),
+    ('def f():\n    pass\n\ndef g():\n    \'abc \\\n    def\'\n    return 1\n', {'g': 5}),
+    ('def f(): """a\\n\\n\\n\\n\\n\\nb"""\n', {'f': 1}),
+    ('import os\n\n\ndef h():\n    """first\\nsecond\n\n    Example:\n        >>> print(1)\n        1\n    """\n', {'h': 5}),
+]
 
 _known_budget = [3]
 
@@ -220,6 +230,47 @@ def correspondence(ctx, corr):
             if (ans[i] == '1') != real:
                 corr.disagree('start_ok', {'kind': 'line', 'trip': trip, 'line': l}, ans[i], real)
             i += 1
+    # _find_docstr_startpos_workaround itself (the real function, whichever branch calls it): start x end line shapes
+    from xdoctest import static_analysis
+    cases = []
+    for q in ("'''", '"""'):
+        for first, ok_start in [(q, True), ('    ' + q + 'Summary', True), ('  r' + q, True), ('U' + q + 'x', True), ('x = ' + q, False)]:
+            for last, ok_end in [(q, True), ('    ' + q, True), (q + '   ', True), ('    ' + q + '\t', True), (q + '  # c', True),
+                                 (q + ' # c   ', True), ('text' + q + ' ', True), (q + ' x', False), ('text', False),
+                                 (q + ' # ' + ("'''" if q == '"""' else '"""'), True)]:
+                for nbody in (0, 2):
+                    lines = ['import os', 'def f():', first] + ['    body %d' % i for i in range(nbody)] + [last, '    pass']
+                    docstr = '\n'.join(['S'] + ['    body %d' % i for i in range(nbody)] + ['E'])
+                    cases.append((docstr, lines, 2 + nbody + 1, ok_start and ok_end))
+    ans = driver.run_lines(['find_doc_start\t%s\t%s\t%d' % (enc(d), enc_list(ls), e) for d, ls, e, _ in cases])
+    for (d, ls, e, ok), a in zip(cases, ans):
+        try:
+            r = '%d,%d' % static_analysis.TopLevelVisitor._find_docstr_startpos_workaround(None, d, ls, e)
+        except IndexError:
+            r = 'error:IndexError'
+        corr.count('startpos_workaround')
+        inp = {'kind': 'startpos', 'docstr': d, 'lines': ls, 'endpos': e}
+        if r != a:
+            corr.disagree('startpos_workaround', inp, a, r)
+        if ok and r != '2,%d' % (e + 1):
+            corr.expect_fail('startpos_workaround', inp, '2,%d' % (e + 1), r,
+                             'a literal opened on line index 2 and closed on line index %d is not located there' % e)
+    # literals with newline escapes / continuations: model vs code always; vs the true start line only when the code
+    # takes the start from the node (K-C08-b otherwise)
+    mode = driver.run_lines(['docstart_mode'])[0]
+    corr.tag('docstart_mode=' + mode)
+    model = cc.model_calldefs([s for s, _ in ESCAPE_SOURCES])
+    for (src, exp), a in zip(ESCAPE_SOURCES, model):
+        r, cds = C.real_calldefs(src)
+        corr.count('docstart:escapes')
+        if r != a:
+            corr.disagree('docstart', {'kind': 'module-doclines', 'source': src}, a[:300], r[:300])
+        if mode == 'node':
+            obs = cc.observe_doclines(src)
+            got = {k: (obs.get(k) or [None])[0] for k in exp} if isinstance(obs, dict) else obs
+            if got != exp:
+                corr.expect_fail('docstart', {'kind': 'module-doclines', 'source': src, 'label': 'escapes'},
+                                 {k: [v, None] for k, v in exp.items()}, obs, 'the literal starts on another line')
     # docstart on synthetic files through the real function (model vs code): every start x end shape
     srcs = []
     for q in ("'''", '"""'):
@@ -289,7 +340,11 @@ def replay_finding(ctx, finding):
         obs = _observe_lineno({'source': src, 'style': 'google'})
         return bool(obs) and obs[0][2] == 4 and obs[0][3] == 5
     if finding['id'] == 'K-C08-b':
-        return cc.observe_doclines(WITNESS_B) == {'f': [7, 7]}
+        # residual after repair d902c0b (the literal's START line is now exact): the lines of the docstring
+        # VALUE are counted, so every line after a newline escape is reported one too large per escape
+        src = 'import os\n\n\ndef h():\n    """first\\nsecond\n\n    Example:\n        >>> print(1)\n        1\n    """\n'
+        obs = _observe_lineno({'source': src, 'style': 'freeform'})
+        return bool(obs) and obs[0][2] == 9       # the prompt is on file line 8
     return False
 
 
@@ -303,6 +358,15 @@ def replay(ctx, failing):
         exp = failing.get('expected') or {}
         return any((obs.get(k) if isinstance(obs, dict) else None) != v for k, v in exp.items() if v[1] is not None) or \
             any((obs.get(k) or [None])[0] != v[0] for k, v in exp.items())
+    if kind == 'startpos':
+        from xdoctest import static_analysis
+        try:
+            r = '%d,%d' % static_analysis.TopLevelVisitor._find_docstr_startpos_workaround(None, inp['docstr'], inp['lines'], inp['endpos'])
+        except IndexError:
+            r = 'error:IndexError'
+        print('lines=%r endpos=%d docstr=%r' % (inp['lines'], inp['endpos'], inp['docstr']))
+        print('expected (start, stop) = %s, observed now %s' % (failing.get('expected'), r))
+        return r != failing.get('expected')
     if kind == 'module-lineno':
         obs = _observe_lineno(inp)
         print(inp['source'])
